@@ -165,7 +165,7 @@ CLAIMED = {
     "C30": dict(
         technique="writer/reader layout agreement recovered from MIR with a constant evaluator (field -> offset/width/endianness maps; ordered item lists for streamed layouts) + edge-cut must-pass-through in Toc::decode + writer/reader order-contract agreement for the time index + exact-equality rule for length checks in the decoders",
         text="Partial (layout agreement): header and footer field maps recovered from encode equal those recovered from decode, cover every field, are disjoint and inside the fixed "
-             "size, with the same validated fields; the time-index item list written equals the list read and hashed; Toc::decode returns Ok only on the bytes_read == len edge in all three format arms. The time-index writer sorts by (timestamp, frame_id) and the reader validates exactly that order. No decoder relates a count and a byte length through integer division.",
+             "size, with the same validated fields; the time-index item list written equals the list read and hashed; Toc::decode returns Ok only on the bytes_read == len edge in all three format arms. The time-index writer sorts by (timestamp, frame_id) and the reader validates exactly that order. No decoder relates a count and a byte length through integer division. Every identity test of the header/footer decoders (bytes against MAGIC, VERSION, SPEC_*, FOOTER_SIZE) rejects on its own: its mismatch edge cannot reach the decoded value.",
         note="Not decided: round-trip equality for arbitrary values; bincode/serde themselves (external).",
         design_ref="DESIGN.md §4 C30"),
     "C17": dict(
